@@ -35,9 +35,13 @@ def mir_send_tx(cfg):
 def obligations():
     return [
         KModelOb('O18.1-pool', 'pending', 'pool', 'PendingTxs (real text): the pool never exceeds its limit, the oldest is evicted first, a re-push refreshes, '
-                 'get reports exactly the members, each pending hash is announced to a given peer at most once (and all not-yet-announced ones are)',
+                 'get reports exactly the members, each pool entry is announced to a given peer at most once (and all not-yet-announced ones are); the reference follows the code in '
+                 'treating a re-pushed transaction as a fresh entry - the once-per-peer clause under re-submission is O18.3',
                  ex_pending, 'ONE arbitrary operation (push / announce / get) from an ARBITRARY pool state (inductive step); limit 1..3; 4 identities; 2 peers', cuts=CUTS,
                  timeout=1500, mem_gb=10, min_covers=2, weight=4),
+        KModelOb('O18.3-resubmission', 'pending', 'resubmission', 'PendingTxs (real text): a transaction that was already announced to a peer and is submitted AGAIN (send_transaction does '
+                 'not de-duplicate) is not announced to that peer a second time', ex_pending, 'arbitrary pool (limit 1..3, 4 identities, 2 peers), re-push of a member, one announce', cuts=CUTS,
+                 timeout=1200, mem_gb=10, min_covers=1, weight=3),
         MirOb('O18.2-verify-gate', 'TransactionRpcImpl::send_transaction: PendingTxs::push only on the Ok edge of verify_tx',
               r'service\.rs:\d+:\d+: \d+:\d+>::send_transaction\(', mir_send_tx, src_rel=SERVICE),
     ]
